@@ -495,6 +495,10 @@ def run(prop, tier, seed):
                 selftest["response_flipped_rejected_by_AtomicTrace"] = not validate(c3, wd, name="AtomicTraceSelf")[0]
                 if not all(selftest.values()):
                     raise Inconclusive("binding self-test failed: a corrupted trace was accepted (%s)" % selftest)
+            # the repository's own tests (soak tests included) as trace sources: StoreTrace (AtomicRMW, ReadLatest, Monotone), DRIFT only
+            import repotrace
+            for d_ in repotrace.phase(wd, info, 4000 if tier == "quick" else 40000):
+                drift.append(dict(note=d_))
             info["detail"] = dict(detailed_traces=len(dindex), detailed_events=len(dlines), accepted=dok, first_unexplained=detail_drift, binding_selftest=selftest)
         rc = verdict.finish()
         gated = [s for s in scenarios if s["ops"][0].get("gate")]
@@ -505,7 +509,7 @@ def run(prop, tier, seed):
                    model_runs=info["model_runs"], mutants=info["mutants"], mutants_expected=len(MUTANTS[prop]), mutants_killed=len(info["mutants"]),
                    schedules_imposed=len(gated), free_running_groups=len(scenarios) - len(gated),
                    schedules_with_deviation=ndev, blocked_observations=nblocked, deadlocks_observed=len(deadlocks),
-                   drift=drift[:10], drift_count=len(drift), exhaustive=False, layer_d_trace_validation=info.get("detail"),
+                   drift=drift[:10], drift_count=len(drift), exhaustive=False, layer_d_trace_validation=info.get("detail"), repo_tests_as_traces=info.get("repo_tests_as_traces"),
                    checker_cmd="tlc MCSigner / SignerSim / AtomicTrace (see lib/concfamily.py)")
         write_evidence(prop, tier, seed, "model_checking", cov, time.time() - t0, violations=len(verdict.violations),
                        assumptions=["gates at locker calls and Store hooks are the only scheduling points that matter for the slashing records",
